@@ -1,6 +1,8 @@
 """C11 bounded run-time tier: Field.fftn / ifftn / rfftn / irfftn and Mesh.fftn / ifftn against a
 direct O(N^2) discrete Fourier sum (extended precision) and numpy's fftfreq / rfftfreq tables.
-Bounded: <= 6 cells per axis in 1-3 dimensions, <= 4 cells per axis in 4 dimensions, 1-4 components."""
+Bounded: <= 6 cells per axis in 1-3 dimensions, <= 4 cells per axis in 4 dimensions, 1-4 components.
+Every transform is applied TWICE to the same field object and the field (array bytes, validity, mesh, labels),
+the caller's array it was built from and the fields it was derived from are compared before / after (frame)."""
 import itertools
 import numpy as np
 import discretisedfield as df
@@ -8,37 +10,57 @@ from .common import raises
 
 PROPERTY = "C11"
 EPS = np.finfo(float).eps
+EPS32 = float(np.finfo(np.float32).eps)
 CLAUSES = {
-    "C11.dft_values": "fftn: every k-cell holds sum over cells of value*exp(-2 pi i k.r), k = centre of that k-cell as reported by the k-mesh, r = index*cell counted from the first cell (direct O(N^2) sum in extended precision; |diff| <= 64 eps * sum|value| of the component)",
+    "C11.dft_values": "fftn (real, complex, integer, single-precision input; fresh fields and fields produced by earlier transforms / arithmetic): every k-cell holds sum over cells of value*exp(-2 pi i k.r), value = what the field held BEFORE the call, k = centre of that k-cell as reported by the k-mesh, r = index*cell counted from the first cell (direct O(N^2) sum in extended precision; |diff| <= 64 eps * sum|value| of the component; eps = single precision for float32/complex64/float16 fields)",
     "C11.rdft_values": "rfftn: the same direct sum in every cell of the real-transform k-mesh (same budget)",
     "C11.kmesh_freqs": "fftn k-mesh: n unchanged and, per axis, cell centres == fftshift(fftfreq(n, cell)) (8 ulp of the largest |frequency| of the axis, 1/cell for a single cell)",
     "C11.rkmesh_freqs": "rfftn k-mesh: last axis has n//2+1 cells centred at rfftfreq(n, cell) (non-negative half, unshifted), other axes as for fftn (same budget)",
     "C11.k_names": "k-mesh dims are k_<dim>; units are reciprocal: '(<unit>)' followed by a -1 exponent; both for Field transforms and Mesh.fftn",
-    "C11.inverse_values": "ifftn(fftn(f)) == f and irfftn(rfftn(f), shape=n) == f (64 ulp of max|f|); real input comes back real from irfftn",
+    "C11.inverse_values": "ifftn(fftn(f)) == f (real and complex f) and irfftn(rfftn(f), shape=n) == f (64 ulp of max|f|); real input comes back real from irfftn; the chain may re-use its intermediate fields (fftn(ifftn(fftn(f))) == fftn(f), 64 eps * sum|f|)",
+    "C11.inverse_dft": "ifftn of ARBITRARY k-space data G (complex, real, integer, single precision) on a k-mesh: the direct Fourier sum of the result (r = index * original cell) at the k-cell centres gives G back (64 eps * sum|G|), and fftn(ifftn(G)) == G through the library (64 ulp of max|G|)",
     "C11.inverse_mesh": "mesh of ifftn/irfftn (and Mesh.fftn().ifftn()): original n, original cell (8 ulp), centred at the origin (8 ulp of the edge length), original dims and units",
     "C11.irfftn_shape": "irfftn/Mesh.ifftn(rfft=True) without shape take the last axis as even: an even last axis is restored (values and mesh); an odd one (>= 3) is NOT restored without shape but is with shape=n (single-cell last axis restored with shape=n)",
     "C11.rfft_half": "rfftn array == the half of the fftn array with non-negative last-axis frequency (Nyquist cell of an even axis == the -Nyquist cell of fftn); 64 eps * sum|value|",
-    "C11.zero_freq": "the cell with all frequencies zero (index n//2 per shifted axis, 0 on the rfft axis) holds the plain sum over all cells (64 eps * sum|value|)",
-    "C11.linear": "T(alpha*a + beta*b) == alpha*T(a) + beta*T(b) for T in fftn, ifftn, rfftn, irfftn (64 eps * (|alpha| sum|a| + |beta| sum|b|), inverse: max instead of sum)",
+    "C11.real_of_complex": "rfftn of a complex-valued field (any imaginary part, also the rounding-size one left by an earlier ifftn) is either refused (exception) or equals the non-negative half of fftn of that field (64 eps * sum|value|) on the rfft k-mesh; the imaginary part is never dropped silently",
+    "C11.zero_freq": "the cell with all frequencies zero (index n//2 per shifted axis, 0 on the rfft axis) holds the plain sum over all cells, real and complex fields (64 eps * sum|value|)",
+    "C11.linear": "T(alpha*a + beta*b) == alpha*T(a) + beta*T(b) for T in fftn, ifftn (complex alpha, beta, a, b), rfftn (real), irfftn (real alpha, beta; arbitrary complex half spectra) (64 eps * (|alpha| sum|a| + |beta| sum|b|), inverse: max instead of sum); the combination is formed from the operand FIELDS after they have been transformed, and T(a) taken again afterwards is unchanged",
     "C11.per_component": "component i of the transform == transform of the one-component field holding component i (all four kinds; 16 eps * sum|value|); nvdim is preserved",
     "C11.rename": "forward: vdims -> ft_<vdim>, vdim_mapping {v: d} -> {ft_v: k_d}; inverse strips the prefixes again (equals the original vdims/vdim_mapping); scalar fields without vdims keep None / {}",
+    "C11.frame": "a transform (fftn, ifftn, rfftn, irfftn with/without shape - also when it refuses -, Mesh.fftn / Mesh.ifftn) does not change what it is applied to: field array (dtype, shape, bytes), valid mask, mesh (n, corners, dims, units, subregions, bc), vdims, vdim_mapping, unit are bit-identical afterwards; so are the caller's array the field was built from (any memory layout) and the fields it was derived from (parent of a component, operands of an arithmetic expression, the k-field an inverse came from); the result shares no memory with the input",
+    "C11.repeat": "applying the same transform a second time to the same field object - directly, and again after transforms of other fields/meshes in between - gives the bit-identical result (array, mesh, labels) or refuses again",
 }
 RULE = ("shapes: every tuple of axis sizes in 1..6 for 1, 2 and 3 dimensions (258 shapes = every mix of single/even/odd axes); 4 dimensions: sizes 1..3 "
         "(thorough all 81 + 40 seeded with sizes 1..4, quick 24 incl. all-single and all-3); per shape (x5 in thorough) seeded anisotropic cell "
         "sizes (10^U(-9,3) scale, ratio up to 7), seeded mesh offset (incl. far from the origin), 1-4 components, real and complex data (normal, "
         "non-symmetric), default / custom / permuted vdims+vdim_mapping, default / custom dims+units; kinds: forward (values, k-mesh, names, inverse, "
-        "half, zero frequency, per component, renaming) and linear; trivial = one cell in total; distinct by (kind, params)")
+        "half, zero frequency, per component, renaming; complex fields: real transform refused-or-consistent), linear (re-used operand fields) and "
+        "frame: field dtype {float64, complex128, float32, complex64, int64, int32, uint8, bool, float16} x memory layout of the caller's array "
+        "{C, Fortran, strided view, negative strides} x 5 seeded shapes (1-4 dimensions), and field history {result of ifftn of arbitrary complex data, "
+        "fftn().ifftn() round trip of a real / complex field, result of irfftn, component of a vector field, arithmetic expression of two fields} x 25 "
+        "seeded shapes, with seeded valid masks, units, subregions (exact binary geometry) - all four transforms on the real-space field, on the spectra "
+        "it produces and on fresh k-space fields of the same dtype/layout; EVERY transform call of every kind is made twice on the same object with a "
+        "before/after comparison; trivial = one cell in total; distinct by (kind, params)")
 ASSUMPTIONS = [
     "bounded: <= 6 cells per axis (<= 4 in 4-d), 1-4 dimensions, 1-4 components, seeded data and geometry",
     "oracle sum evaluated in numpy longdouble (80-bit on x86; falls back to double elsewhere) - trusted: numpy exp/cos/sin, np.fft.fftfreq/rfftfreq/fftshift tables",
-    "rfftn/irfftn are exercised on real input only (scipy refuses complex input to the real transform)",
-    "extra keyword arguments forwarded to scipy (norm=, workers=, ...) are not exercised",
+    "the real transform of a complex field is allowed to be refused (scipy does); if it answers, the answer must be the half of the full transform",
+    "irfftn of spectra that are NOT the real transform of a real field (arbitrary complex / real / integer data): only frame, repeatability and real-linearity are demanded, the statement does not define their values",
+    "non-contiguous memory: reached through the caller's array handed to the constructor (the constructor is observed to copy into a fresh C-ordered array of the requested dtype; a field that kept a view would be covered by the same frame clause) - Field._array is not assigned directly",
+    "'to rounding' for float32 / complex64 / float16 fields means single precision (scipy transforms them in single precision)",
+    "extra keyword arguments forwarded to scipy (norm=, workers=, overwrite_x=, ...) are not exercised",
     "unit format: only '(<unit>)' + a '-1' exponent marker is demanded, not the exact TeX string",
+    "bit-identity of a repeated call assumes a deterministic FFT backend (pocketfft, single worker)",
 ]
 
 VD = ["mu", "mv", "mw", "mt"]
 DIMS = ["a", "b", "c", "d"]
 UNITS = ["nm", "s", "um", "rad"]
+DTYPES = ["float64", "complex128", "float32", "complex64", "int64", "int32", "uint8", "bool", "float16"]
+LAYOUTS = ["C", "F", "strided", "negative"]
+HISTORIES = ["ifftn", "roundtrip", "irfftn", "component", "arith"]
+SINGLE = ("float32", "complex64", "float16")
+COMPLEX = ("complex128", "complex64")
 
 
 # ---------------------------------------------------------------------------------- enumeration
@@ -71,6 +93,32 @@ def _geom(rng, n, j):
     return cell, p1
 
 
+def _geom_exact(rng, n):
+    """small-integer multiples of a power of two: every cell face is exactly representable (needed for subregions)"""
+    nd = len(n)
+    unit = 2.0 ** int(rng.integers(-30, 8))
+    cell = (unit * rng.integers(1, 8, size=nd)).tolist()
+    p1 = [float(c * int(k)) for c, k in zip(cell, rng.integers(-5, 6, size=nd))]
+    return cell, p1
+
+
+def _rand_shape(rng, nd):
+    hi = 7 if nd <= 3 else 4
+    return [int(k) for k in rng.integers(1, hi, size=nd)]
+
+
+def _frame_case(rng, n, j, dtype, layout, hist):
+    sub = bool(j % 4 == 1)
+    cell, p1 = _geom_exact(rng, n) if sub else _geom(rng, n, j)
+    nv = int(rng.integers(1, 5))
+    if hist in ("component", "arith") and j % 2:
+        nv = max(nv, 2)
+    return {"n": list(n), "cell": cell, "p1": p1, "names": bool(rng.integers(2)), "nvdim": nv,
+            "vd": ["default", "custom", "perm"][int(rng.integers(3))], "seed": int(rng.integers(1 << 30)),
+            "dtype": dtype, "layout": layout, "hist": hist, "sub": sub,
+            "valid": bool(rng.integers(2)), "unit": [None, "A/m"][int(rng.integers(2))]}
+
+
 def cases(ctx):
     rng = ctx.rng
     reps = 1 if ctx.tier == "quick" else 5
@@ -93,6 +141,19 @@ def cases(ctx):
                     pl["alpha"] = rng.normal(size=2).tolist()
                     pl["beta"] = (rng.normal(size=2) * 10.0 ** rng.integers(-3, 4)).tolist()
                     yield "linear", pl
+    # frame: dtype x layout of fresh fields, and fields with a history
+    j = 0
+    for _ in range(reps):
+        for dtype in DTYPES:
+            for layout in LAYOUTS:
+                for nd in (1, 2, 3, 3, 4):
+                    j += 1
+                    yield "frame", _frame_case(rng, _rand_shape(rng, nd), j, dtype, layout, "fresh")
+        for hist in HISTORIES:
+            for i in range(25):
+                j += 1
+                nd = 1 + (i % 4)
+                yield "frame", _frame_case(rng, _rand_shape(rng, nd), j, ["float64", "complex128"][i % 2], LAYOUTS[i % 4], hist)
     # fixed corner cases: the doc-string meshes, default names, vector field with default mapping
     yield "forward", {"n": [5], "cell": [2.0], "p1": [0.0], "names": False, "nvdim": 3, "complex": False, "vd": "default", "seed": 1}
     yield "forward", {"n": [5, 5], "cell": [2.0, 2.0], "p1": [0.0, 0.0], "names": False, "nvdim": 2, "complex": False, "vd": "default", "seed": 2}
@@ -100,6 +161,16 @@ def cases(ctx):
     yield "forward", {"n": [3, 4, 6], "cell": [1e-9, 2e-9, 3e-9], "p1": [-2e-9, 5e-9, 0.0], "names": True, "nvdim": 3, "complex": True, "vd": "perm", "seed": 4}
     yield "linear", {"n": [3, 4, 5], "cell": [1.0, 2.0, 0.5], "p1": [0.1, 0.2, 0.3], "names": False, "nvdim": 3, "complex": False, "vd": "default", "seed": 5,
                      "alpha": [2.0, 0.5], "beta": [-300.0, 1.0]}
+    yield "linear", {"n": [5, 4], "cell": [0.5, 0.75], "p1": [1.0, -2.0], "names": False, "nvdim": 3, "complex": True, "vd": "default", "seed": 6,
+                     "alpha": [1.0, 0.0], "beta": [1.0, 0.0]}
+    # a real field sent through fftn().ifftn() and transformed again; complex64 / int32 / float32 fields, doc-string sized
+    base = {"n": [5, 4], "cell": [0.5, 0.75], "p1": [1.0, -2.0], "names": False, "nvdim": 1, "vd": "default", "seed": 7,
+            "layout": "C", "sub": False, "valid": False, "unit": None}
+    yield "frame", dict(base, dtype="float64", hist="roundtrip")
+    yield "frame", dict(base, dtype="complex128", hist="fresh", nvdim=2)
+    yield "frame", dict(base, dtype="complex64", hist="fresh", nvdim=3, n=[6, 1, 3], cell=[1.0, 2.0, 0.25], p1=[0.0, 0.0, 0.0])
+    yield "frame", dict(base, dtype="int32", hist="fresh", layout="strided", n=[6], cell=[2.0], p1=[0.0])
+    yield "frame", dict(base, dtype="float32", hist="fresh", layout="F", nvdim=2, valid=True)
 
 
 # ---------------------------------------------------------------------------------- construction
@@ -109,17 +180,22 @@ def _build_mesh(pr):
     cell = np.array(pr["cell"], dtype=float)
     p1 = np.array(pr["p1"], dtype=float)
     p2 = p1 + np.array(n) * cell
-    if pr["names"]:
-        region = df.Region(p1=tuple(p1), p2=tuple(p2), dims=DIMS[:nd], units=UNITS[:nd])
-    else:
-        region = df.Region(p1=tuple(p1), p2=tuple(p2))
+    kw = {"dims": DIMS[:nd], "units": UNITS[:nd]} if pr["names"] else {}
+    region = df.Region(p1=tuple(p1), p2=tuple(p2), **kw)
+    if pr.get("sub"):
+        # exact geometry (see _geom_exact): a box of whole cells and the whole region
+        lo = [k // 3 for k in n]
+        hi = [max(l + 1, k - k // 4) for l, k in zip(lo, n)]
+        sub = {"box": df.Region(p1=tuple(p1 + np.array(lo) * cell), p2=tuple(p1 + np.array(hi) * cell), **kw),
+               "whole": df.Region(p1=tuple(p1), p2=tuple(p2), **kw)}
+        return df.Mesh(region=region, n=tuple(n), subregions=sub)
     return df.Mesh(region=region, n=tuple(n))
 
 
-def _build_field(mesh, pr, data):
-    nv = pr["nvdim"]
+def _build_field(mesh, pr, data, nv=None, **extra):
+    nv = pr["nvdim"] if nv is None else nv
     dims = list(mesh.region.dims)
-    kw = {}
+    kw = dict(extra)
     if pr["vd"] == "custom":
         kw["vdims"] = (["s"] if nv == 1 else VD[:nv])
     elif pr["vd"] == "perm":
@@ -135,6 +211,43 @@ def _data(rng, n, nv, cplx):
     if cplx:
         a = a + 1j * rng.normal(size=(*n, nv))
     return a
+
+
+def _typed(rng, shape, dtype):
+    """seeded data of the named dtype, non-symmetric, non-zero mean"""
+    if dtype in ("float64", "float32", "float16", "complex128", "complex64"):
+        a = rng.normal(size=shape) * (10.0 ** rng.integers(-1, 3)) + rng.uniform(-1, 1, size=shape[-1])
+        if dtype in COMPLEX:
+            a = a + 1j * (rng.normal(size=shape) * (10.0 ** rng.integers(-1, 2)) + rng.uniform(-1, 1, size=shape[-1]))
+        return a.astype(dtype)
+    if dtype in ("int64", "int32"):
+        return rng.integers(-1000, 1001, size=shape).astype(dtype)
+    if dtype == "uint8":
+        return rng.integers(0, 256, size=shape).astype(dtype)
+    if dtype == "bool":
+        return rng.integers(0, 2, size=shape).astype(bool)
+    raise ValueError(dtype)
+
+
+def _layout(a, layout):
+    """the same values in another memory layout (returns the array to hand to the library; may be a view)"""
+    if layout == "C":
+        return np.ascontiguousarray(a)
+    if layout == "F":
+        return np.asfortranarray(a)
+    if layout == "strided":
+        big = np.zeros(tuple(2 * s + 1 for s in a.shape), dtype=a.dtype)
+        sl = tuple(slice(1, 2 * s + 1, 2) for s in a.shape)
+        big[sl] = a
+        return big[sl]
+    if layout == "negative":
+        sl = (slice(None, None, -1),) * a.ndim
+        return np.ascontiguousarray(a[sl])[sl]
+    raise ValueError(layout)
+
+
+def _dtype_kw(dtype):
+    return {} if dtype in ("float64", "complex128") else {"dtype": np.dtype(dtype).type}
 
 
 # ---------------------------------------------------------------------------------- oracle
@@ -195,6 +308,108 @@ def _want_freqs(n, cell, rfft):
     return out
 
 
+def _half_index(n_last):
+    """indices into the shifted full last axis holding the frequencies 0, 1, .., n//2 (Nyquist of an even axis sits at index 0)"""
+    return [(j + n_last // 2) if (j + n_last // 2) < n_last else 0 for j in range(n_last // 2 + 1)]
+
+
+# ---------------------------------------------------------------------------------- frame: before / after snapshots
+def _snap_array(a):
+    a = np.asarray(a)
+    return (a.dtype.str, tuple(a.shape), a.tobytes())
+
+
+def _snap_region(r):
+    return (_snap_array(np.asarray(r.pmin, dtype=float)), _snap_array(np.asarray(r.pmax, dtype=float)),
+            tuple(r.dims), tuple(r.units), float(r.tolerance_factor))
+
+
+def _snap_mesh(m):
+    return {"n": tuple(int(k) for k in m.n), "region": _snap_region(m.region), "bc": str(m.bc),
+            "subregions": tuple((name, _snap_region(r)) for name, r in m.subregions.items())}
+
+
+def _snap_field(f):
+    vm = f.vdim_mapping
+    return {"array": _snap_array(f.array), "valid": _snap_array(f.valid), "mesh": _snap_mesh(f.mesh),
+            "vdims": None if f.vdims is None else tuple(f.vdims), "vdim_mapping": None if vm is None else tuple(vm.items()),
+            "unit": f.unit, "nvdim": f.nvdim, "dtype": repr(f.dtype)}
+
+
+def _diff(s0, s1, prefix=""):
+    out = []
+    for k in s0:
+        if s0[k] != s1[k]:
+            if isinstance(s0[k], dict):
+                out += _diff(s0[k], s1[k], prefix + k + ".")
+            else:
+                out.append(prefix + k)
+    return out
+
+
+class _Watch:
+    """things besides the transformed field that a transform must leave alone"""
+
+    def __init__(self):
+        self.items = []
+
+    def array(self, label, a):
+        base = a
+        while isinstance(base.base, np.ndarray):
+            base = base.base                      # the whole buffer behind a strided view
+        self.items.append((label, lambda b=base: {"bytes": _snap_array(b)}, {"bytes": _snap_array(base)}))
+        return a
+
+    def field(self, label, f):
+        self.items.append((label, lambda f=f: _snap_field(f), _snap_field(f)))
+        return f
+
+    def mesh(self, label, m):
+        self.items.append((label, lambda m=m: _snap_mesh(m), _snap_mesh(m)))
+        return m
+
+    def changed(self):
+        return [d for label, get, s0 in self.items for d in _diff(s0, get(), label + ":")]
+
+
+def _same_result(a, b):
+    if type(a) is not type(b):
+        return False
+    if isinstance(a, df.Mesh):
+        return _snap_mesh(a) == _snap_mesh(b)
+    return _snap_field(a) == _snap_field(b)
+
+
+def _apply(ctx, obj, name, watch, where, **kw):
+    """obj.<name>(**kw) TWICE on the same object (a field or a mesh): C11.frame after each call, C11.repeat between the
+    two answers. returns (raised, first answer)."""
+    snap = _snap_field if isinstance(obj, df.Field) else _snap_mesh
+    s0 = snap(obj)
+    what = "%s: %s(%s)" % (where, name, ", ".join("%s=%s" % kv for kv in kw.items()))
+    r1, o1 = raises(Exception, getattr(obj, name), **kw)
+    ch = _diff(s0, snap(obj), "self.") + watch.changed()
+    ctx.require(not ch, "C11.frame", what + " changed the object it was applied to / the data it was built from", changed=ch, raised=r1)
+    if not r1 and isinstance(obj, df.Field):
+        ctx.require(not np.shares_memory(o1.array, obj.array), "C11.frame", what + ": result shares memory with the input field")
+    r2, o2 = raises(Exception, getattr(obj, name), **kw)
+    ch2 = _diff(s0, snap(obj), "self.") + watch.changed()
+    if ch2 != ch:
+        ctx.require(not ch2, "C11.frame", what + " (second application) changed the object it was applied to", changed=ch2, raised=r2)
+    same = (r1 == r2) and (type(o1) is type(o2) if r1 else _same_result(o1, o2))
+    ctx.require(same, "C11.repeat", what + ": the second application to the same object gives a different answer", raised=[r1, r2],
+                max_abs_diff=None if (r1 or r2 or o1.__class__ is df.Mesh or o1.array.shape != o2.array.shape)
+                else float(np.max(np.abs(o1.array - o2.array))))
+    return r1, o1
+
+
+def _again(ctx, obj, name, first, where, **kw):
+    """the same transform once more at the end of a case (other fields and meshes were transformed in between)"""
+    r, o = raises(Exception, getattr(obj, name), **kw)
+    ctx.require(not r and _same_result(first, o), "C11.repeat", "%s: %s() after other transforms differs from the first answer" % (where, name),
+                raised=r, max_abs_diff=None if (r or o.array.shape != first.array.shape) else float(np.max(np.abs(o.array - first.array))))
+
+
+# ---------------------------------------------------------------------------------- clause helpers
 def _check_kmesh(ctx, kmesh, n, cell, rfft, clause, where):
     want = _want_freqs(n, cell, rfft)
     wn = [len(w) for w in want]
@@ -247,21 +462,45 @@ def _rename_fwd(f):
     return vd, mp
 
 
+def _real_of_complex(ctx, f, F, data, budget, watch, where):
+    """the real transform applied to a complex-valued field: refused, or the half of the full transform"""
+    n = list(f.mesh.n)
+    r, R = _apply(ctx, f, "rfftn", watch, where)
+    ok = r
+    got = None
+    if not r:
+        nk = n[:-1] + [n[-1] // 2 + 1]
+        got = list(R.array.shape)
+        ok = (R.array.shape == (*nk, f.nvdim) and list(R.mesh.n) == nk and F is not None and F.array.shape == (*n, f.nvdim)
+              and _cclose(R.array, F.array[..., _half_index(n[-1]), :], budget)
+              and _cclose(R.array, direct_dft(data, _centres(R.mesh), np.asarray(f.mesh.cell, dtype=float)), budget))
+    ctx.require(ok, "C11.real_of_complex", "%s: rfftn of a complex field answers, but not with the half of the full transform" % where,
+                sig="rfftn-of-complex-not-half-of-fftn", shape=got, max_imag=float(np.max(np.abs(data.imag))))
+    return r, R
+
+
 # ---------------------------------------------------------------------------------- checks
 def check(kind, pr, ctx):
     n = list(pr["n"])
-    nd = len(n)
-    nv = pr["nvdim"]
-    cplx = pr["complex"]
     if int(np.prod(n)) == 1:
         ctx.trivial()
     mesh = _build_mesh(pr)
-    cell = np.asarray(mesh.cell, dtype=float)
     rng = np.random.default_rng(pr["seed"])
     if kind == "linear":
         return check_linear(pr, ctx, mesh, rng)
+    if kind == "frame":
+        return check_frame(pr, ctx, mesh, rng)
+    return check_forward(pr, ctx, mesh, rng)
+
+
+def check_forward(pr, ctx, mesh, rng):
+    n = list(pr["n"])
+    nv = pr["nvdim"]
+    cplx = pr["complex"]
+    cell = np.asarray(mesh.cell, dtype=float)
     data = _data(rng, n, nv, cplx)
-    f = _build_field(mesh, pr, data)
+    watch = _Watch()
+    f = _build_field(mesh, pr, watch.array("caller's array", data.copy()))
     assert f.array.shape == (*n, nv) and np.array_equal(f.array, data)   # harness sanity, not a clause
     budget = 64 * EPS * np.sum(np.abs(data.reshape(-1, nv)), axis=0)      # per component
     vmax = float(np.max(np.abs(data)))
@@ -269,15 +508,15 @@ def check(kind, pr, ctx):
     plain_sum = data.reshape(-1, nv).sum(axis=0)
 
     # ---------------- full transform
-    r, F = raises(Exception, f.fftn)
+    r, F = _apply(ctx, f, "fftn", watch, "forward")
     ctx.require(not r, "C11.dft_values", "fftn raised", sig="fftn-raises", error=repr(F) if r else None)
     if r:
         return
     kmesh = F.mesh
     _check_kmesh(ctx, kmesh, n, cell, False, "C11.kmesh_freqs", "Field.fftn")
     _check_names(ctx, kmesh, mesh, "Field.fftn")
-    km2 = mesh.fftn()
-    ctx.require(km2 == kmesh, "C11.kmesh_freqs", "Mesh.fftn() differs from the mesh of Field.fftn()")
+    r, km2 = _apply(ctx, mesh, "fftn", watch, "Mesh")
+    ctx.require(not r and km2 == kmesh, "C11.kmesh_freqs", "Mesh.fftn() differs from the mesh of Field.fftn()")
     shape_ok = F.array.shape == (*n, nv) and list(kmesh.n) == n
     ctx.require(shape_ok, "C11.dft_values", "fftn array shape", got=F.array.shape)
     if shape_ok:
@@ -297,7 +536,8 @@ def check(kind, pr, ctx):
         comp_ok &= Fi.nvdim == 1 and _cclose(Fi.array[..., 0], F.array[..., i], budget[i] / 4)
     ctx.require(comp_ok, "C11.per_component", "fftn of a single component differs from that component of the transform")
     # inverse
-    r, G = raises(Exception, F.ifftn)
+    watch.field("the real-space field the spectrum came from", f)
+    r, G = _apply(ctx, F, "ifftn", watch, "forward")
     ctx.require(not r, "C11.inverse_values", "ifftn raised", sig="ifftn-raises", error=repr(G) if r else None)
     if not r:
         okm = _check_inverse_mesh(ctx, G.mesh, mesh, "ifftn(fftn)")
@@ -310,19 +550,29 @@ def check(kind, pr, ctx):
             Fi = df.Field(kmesh, nvdim=1, value=F.array[..., i:i + 1])
             comp_ok &= _cclose(Fi.ifftn().array[..., 0], G.array[..., i], 16 * EPS * vmax)
         ctx.require(comp_ok, "C11.per_component", "ifftn of a single component differs from that component of the inverse")
-    _check_inverse_mesh(ctx, kmesh.ifftn(), mesh, "Mesh.fftn().ifftn()")
+        # the chain goes on with its intermediate fields: G (a complex field produced by ifftn) forward again, F still usable
+        watch.field("the spectrum the field came from", F)
+        r3, F3 = _apply(ctx, G, "fftn", watch, "forward: fftn(ifftn(fftn(f)))")
+        ctx.require(not r3 and F3.array.shape == F.array.shape and _cclose(F3.array, want if shape_ok else F.array, 2 * budget), "C11.inverse_values",
+                    "fftn(ifftn(fftn(f))) != fftn(f)", worst_over_budget=None if r3 else _maxrel(F3.array, F.array, 2 * budget))
+    r, im = _apply(ctx, kmesh, "ifftn", watch, "Mesh.fftn()")
+    if ctx.require(not r, "C11.inverse_mesh", "Mesh.fftn().ifftn() raised", error=repr(im) if r else None):
+        _check_inverse_mesh(ctx, im, mesh, "Mesh.fftn().ifftn()")
 
     if cplx:
+        _real_of_complex(ctx, f, F, data, budget, watch, "forward")
+        _again(ctx, f, "fftn", F, "forward")
         return
     # ---------------- real transform
-    r, R = raises(Exception, f.rfftn)
+    r, R = _apply(ctx, f, "rfftn", watch, "forward")
     ctx.require(not r, "C11.rdft_values", "rfftn raised", sig="rfftn-raises", error=repr(R) if r else None)
     if r:
         return
     rk = R.mesh
     _check_kmesh(ctx, rk, n, cell, True, "C11.rkmesh_freqs", "Field.rfftn")
     _check_names(ctx, rk, mesh, "Field.rfftn")
-    ctx.require(mesh.fftn(rfft=True) == rk, "C11.rkmesh_freqs", "Mesh.fftn(rfft=True) differs from the mesh of Field.rfftn()")
+    r, rk2 = _apply(ctx, mesh, "fftn", watch, "Mesh", rfft=True)
+    ctx.require(not r and rk2 == rk, "C11.rkmesh_freqs", "Mesh.fftn(rfft=True) differs from the mesh of Field.rfftn()")
     nk = n[:-1] + [n[-1] // 2 + 1]
     shape_ok = R.array.shape == (*nk, nv) and list(rk.n) == nk
     ctx.require(shape_ok, "C11.rdft_values", "rfftn array shape", got=R.array.shape, want=nk)
@@ -334,8 +584,7 @@ def check(kind, pr, ctx):
                     "rfftn: zero-frequency cell is not the plain sum", got=R.array[tuple(zero_idx[:-1]) + (0,)], want=plain_sum)
         if F.array.shape == (*n, nv):
             # half of the full transform: frequency j/(n d) sits at shifted index j + n//2 ; Nyquist (even n) at index 0
-            last = [(j + n[-1] // 2) if (j + n[-1] // 2) < n[-1] else 0 for j in range(nk[-1])]
-            half = F.array[..., last, :]
+            half = F.array[..., _half_index(n[-1]), :]
             ctx.require(_cclose(R.array, half, budget), "C11.rfft_half", "rfftn is not the non-negative-frequency half of fftn",
                         worst_over_budget=_maxrel(R.array, half, budget))
     ctx.require(R.vdims == wvd and R.vdim_mapping == wmp and R.nvdim == nv, "C11.rename", "rfftn: vdims / vdim_mapping / nvdim",
@@ -346,7 +595,7 @@ def check(kind, pr, ctx):
         comp_ok &= Ri.nvdim == 1 and _cclose(Ri.array[..., 0], R.array[..., i], budget[i] / 4)
     ctx.require(comp_ok, "C11.per_component", "rfftn of a single component differs from that component of the transform")
     # inverse with the original shape
-    r, H = raises(Exception, R.irfftn, shape=tuple(n))
+    r, H = _apply(ctx, R, "irfftn", watch, "forward", shape=tuple(n))
     ctx.require(not r, "C11.inverse_values", "irfftn(shape=n) raised", sig="irfftn-shape-raises", error=repr(H) if r else None)
     if not r:
         okm = _check_inverse_mesh(ctx, H.mesh, mesh, "irfftn(rfftn, shape=n)")
@@ -362,17 +611,17 @@ def check(kind, pr, ctx):
         ctx.require(comp_ok, "C11.per_component", "irfftn of a single component differs from that component of the inverse")
         if n[-1] % 2 == 1:
             ctx.require(okm and _cclose(H.array, data, 64 * EPS * vmax), "C11.irfftn_shape", "odd last axis not restored with shape=n")
-    r, M = raises(Exception, rk.ifftn, rfft=True, shape=tuple(n))
+    r, M = _apply(ctx, rk, "ifftn", watch, "Mesh.fftn(rfft=True)", rfft=True, shape=tuple(n))
     if ctx.require(not r, "C11.inverse_mesh", "Mesh.ifftn(rfft=True, shape=n) raised", error=repr(M) if r else None):
         _check_inverse_mesh(ctx, M, mesh, "Mesh.fftn(rfft).ifftn(rfft, shape=n)")
     # inverse without shape
-    r, H0 = raises(Exception, R.irfftn)
+    r, H0 = _apply(ctx, R, "irfftn", watch, "forward")
     if n[-1] % 2 == 0:
         ctx.require(not r, "C11.irfftn_shape", "irfftn() without shape raised for an even last axis", error=repr(H0) if r else None)
         if not r:
             okm = _check_inverse_mesh(ctx, H0.mesh, mesh, "irfftn(rfftn) without shape", clause="C11.irfftn_shape")
             ctx.require(okm and _cclose(H0.array, data, 64 * EPS * vmax), "C11.irfftn_shape", "even last axis not restored without shape")
-        r2, M0 = raises(Exception, rk.ifftn, rfft=True)
+        r2, M0 = _apply(ctx, rk, "ifftn", watch, "Mesh.fftn(rfft=True)", rfft=True)
         ctx.require(not r2 and list(M0.n) == n, "C11.irfftn_shape", "Mesh.ifftn(rfft=True) without shape does not give the even count",
                     got=None if r2 else M0.n)
     elif n[-1] >= 3:
@@ -381,6 +630,8 @@ def check(kind, pr, ctx):
         if not r:
             ctx.require(list(H0.mesh.n) == n[:-1] + [2 * (nk[-1] - 1)], "C11.irfftn_shape",
                         "irfftn() without shape: last axis is not 2*(nk-1)", got=H0.mesh.n)
+    _again(ctx, f, "fftn", F, "forward")
+    _again(ctx, f, "rfftn", R, "forward")
 
 
 def check_linear(pr, ctx, mesh, rng):
@@ -393,25 +644,230 @@ def check_linear(pr, ctx, mesh, rng):
         al, be = complex(*pr["alpha"]), complex(*pr["beta"])
     else:
         al, be = float(pr["alpha"][0]), float(pr["beta"][0])
-    fa, fb = _build_field(mesh, pr, a), _build_field(mesh, pr, b)
-    fc = _build_field(mesh, pr, al * a + be * b)
+    watch = _Watch()
+    fa, fb = _build_field(mesh, pr, a.copy()), _build_field(mesh, pr, b.copy())
     s = abs(al) * np.sum(np.abs(a.reshape(-1, nv)), axis=0) + abs(be) * np.sum(np.abs(b.reshape(-1, nv)), axis=0)
-    Fa, Fb, Fc = fa.fftn(), fb.fftn(), fc.fftn()
-    ctx.require(_cclose(Fc.array, al * Fa.array + be * Fb.array, 64 * EPS * s), "C11.linear", "fftn is not linear",
-                worst_over_budget=_maxrel(Fc.array, al * Fa.array + be * Fb.array, 64 * EPS * s))
+    m = abs(al) * np.max(np.abs(a)) + abs(be) * np.max(np.abs(b))
+
+    def comb(x, y):
+        """alpha*x + beta*y formed from what the operand fields hold NOW (after they have been transformed)"""
+        return _build_field(x.mesh, pr, al * x.array + be * y.array)
+
+    def lin(T, x, y, tol, what, **kw):
+        _, Tx = _apply(ctx, x, T, watch, "linear", **kw)
+        _, Ty = _apply(ctx, y, T, watch, "linear", **kw)
+        _, Tc = _apply(ctx, comb(x, y), T, watch, "linear", **kw)
+        ok = all(isinstance(o, df.Field) for o in (Tx, Ty, Tc))
+        want = al * Tx.array + be * Ty.array if ok else None
+        ctx.require(ok and _cclose(Tc.array, want, tol), "C11.linear", what, worst_over_budget=_maxrel(Tc.array, want, tol) if ok else None)
+        if ok:
+            _again(ctx, x, T, Tx, "linear", **kw)
+        return Tx, Ty
+
+    Fa, Fb = lin("fftn", fa, fb, 64 * EPS * s, "fftn is not linear")
+    ctx.require(np.array_equal(fa.array, a) and np.array_equal(fb.array, b), "C11.frame", "linear: operand fields changed by fftn")
     # inverse on arbitrary (non-hermitian) k-space data: reuse a, b as k-space fields
     km = Fa.mesh
-    ka, kb, kc = (df.Field(km, nvdim=nv, value=x) for x in (a, b, al * a + be * b))
-    m = abs(al) * np.max(np.abs(a)) + abs(be) * np.max(np.abs(b))
-    ctx.require(_cclose(kc.ifftn().array, al * ka.ifftn().array + be * kb.ifftn().array, 64 * EPS * m), "C11.linear", "ifftn is not linear")
+    ka, kb = (df.Field(km, nvdim=nv, value=x.copy()) for x in (a, b))
+    lin("ifftn", ka, kb, 64 * EPS * m, "ifftn is not linear")
+    sh = tuple(n)
     if not cplx:
-        Ra, Rb, Rc = fa.rfftn(), fb.rfftn(), fc.rfftn()
-        ctx.require(_cclose(Rc.array, al * Ra.array + be * Rb.array, 64 * EPS * s), "C11.linear", "rfftn is not linear")
-        sh = tuple(n)
+        Ra, Rb = lin("rfftn", fa, fb, 64 * EPS * s, "rfftn is not linear")
         # irfftn on k-space data (complex half spectra Ra, Rb)
-        rk = Ra.mesh
-        x, y = Ra.array, Rb.array
-        ia = df.Field(rk, nvdim=nv, value=x).irfftn(shape=sh).array
-        ib = df.Field(rk, nvdim=nv, value=y).irfftn(shape=sh).array
-        ic = df.Field(rk, nvdim=nv, value=al * x + be * y).irfftn(shape=sh).array
-        ctx.require(_cclose(ic, al * ia + be * ib, 64 * EPS * m), "C11.linear", "irfftn is not linear")
+        lin("irfftn", df.Field(Ra.mesh, nvdim=nv, value=Ra.array.copy()), df.Field(Rb.mesh, nvdim=nv, value=Rb.array.copy()),
+            64 * EPS * m, "irfftn is not linear", shape=sh)
+    else:
+        # irfftn is linear over the reals: arbitrary complex half spectra (imaginary parts at the self-conjugate cells too), real coefficients
+        rk = mesh.fftn(rfft=True)
+        nk = n[:-1] + [n[-1] // 2 + 1]
+        x, y = _data(rng, nk, nv, True), _data(rng, nk, nv, True)
+        al, be = al.real, be.real
+        m = abs(al) * np.max(np.abs(x)) + abs(be) * np.max(np.abs(y))
+        lin("irfftn", df.Field(rk, nvdim=nv, value=x), df.Field(rk, nvdim=nv, value=y), 64 * EPS * m, "irfftn is not linear over the reals", shape=sh)
+
+
+def _history_field(pr, mesh, rng, watch):
+    """the real-space field of a frame case; returns the field (its mesh may be the re-centred one)"""
+    n = list(pr["n"])
+    nv = pr["nvdim"]
+    hist = pr["hist"]
+    cplx = pr["dtype"] in COMPLEX
+    extra = {}
+    if pr["unit"] is not None:
+        extra["unit"] = pr["unit"]
+    if hist == "fresh":
+        if pr["valid"]:
+            mask = rng.integers(0, 2, size=tuple(n)).astype(bool)
+            mask.flat[0] = True
+            extra["valid"] = mask
+        v = watch.array("caller's array", _layout(_typed(rng, (*n, nv), pr["dtype"]), pr["layout"]))
+        return _build_field(mesh, pr, v, **_dtype_kw(pr["dtype"]), **extra)
+    if hist == "ifftn":          # complex field produced by an inverse transform of arbitrary complex k-space data
+        K = _build_field(mesh.fftn(), pr, _layout(_data(rng, n, nv, True), pr["layout"]), **extra)
+        return watch.field("k-space field the input came from", K).ifftn()
+    if hist == "roundtrip":      # real or complex field sent through fftn().ifftn(): complex, imaginary part of rounding size for real input
+        g = _build_field(mesh, pr, _layout(_data(rng, n, nv, cplx), pr["layout"]), **extra)
+        F = watch.field("spectrum the input came from", watch.field("original field", g).fftn())
+        return F.ifftn()
+    if hist == "irfftn":         # real field produced by the real inverse
+        g = _build_field(mesh, pr, _layout(_data(rng, n, nv, False), pr["layout"]), **extra)
+        R = watch.field("half spectrum the input came from", watch.field("original field", g).rfftn())
+        return R.irfftn(shape=tuple(n))
+    if hist == "component":      # one component of a vector field, through the library's accessor
+        parent = watch.field("parent vector field", _build_field(mesh, pr, _layout(_data(rng, n, nv, cplx), pr["layout"]), **extra))
+        if parent.vdims is None:
+            return parent
+        return getattr(parent, parent.vdims[int(rng.integers(nv))])
+    if hist == "arith":          # value of an arithmetic expression of two fields
+        p = watch.field("first operand", _build_field(mesh, pr, _layout(_data(rng, n, nv, cplx), pr["layout"]), **extra))
+        q = watch.field("second operand", _build_field(mesh, pr, _layout(_data(rng, n, nv, cplx), pr["layout"]), **extra))
+        return (2.5 * p - q) if not cplx else ((1.5 - 0.5j) * p + q)
+    raise ValueError(hist)
+
+
+def check_frame(pr, ctx, mesh0, rng):
+    n = list(pr["n"])
+    dtype = pr["dtype"]
+    eps = EPS32 if dtype in SINGLE else EPS
+    watch = _Watch()
+    watch.mesh("mesh", mesh0)
+    f = _history_field(pr, mesh0, rng, watch)
+    nv = f.nvdim
+    mesh = f.mesh
+    cell = np.asarray(mesh.cell, dtype=float)
+    assert list(mesh.n) == n and f.array.shape == (*n, nv)                       # harness sanity
+    data = np.array(f.array, dtype=np.complex128 if np.iscomplexobj(f.array) else np.float64)   # what the field holds before any transform (exact)
+    cplx = np.iscomplexobj(data)
+    budget = 64 * eps * np.sum(np.abs(data.reshape(-1, nv)), axis=0)
+    vmax = float(np.max(np.abs(data)))
+    zero_idx = tuple(k // 2 for k in n)
+    plain_sum = data.reshape(-1, nv).sum(axis=0)
+    where = "frame[%s,%s,%s]" % (dtype, pr["layout"], pr["hist"])
+
+    # ---------------- forward, full
+    r, F = _apply(ctx, f, "fftn", watch, where)
+    ctx.require(not r, "C11.dft_values", where + ": fftn raised", sig="fftn-raises", error=repr(F) if r else None)
+    if r:
+        return
+    kmesh = F.mesh
+    _check_kmesh(ctx, kmesh, n, cell, False, "C11.kmesh_freqs", where)
+    _check_names(ctx, kmesh, mesh, where)
+    shape_ok = F.array.shape == (*n, nv) and list(kmesh.n) == n
+    ctx.require(shape_ok, "C11.dft_values", where + ": fftn array shape", got=F.array.shape)
+    want = None
+    if shape_ok:
+        want = direct_dft(data, _centres(kmesh), cell)
+        ctx.require(_cclose(F.array, want, budget), "C11.dft_values", where + ": fftn differs from the direct Fourier sum of the values the field held",
+                    worst_over_budget=_maxrel(F.array, want, budget))
+        ctx.require(_cclose(F.array[zero_idx], plain_sum, budget), "C11.zero_freq", where + ": fftn zero-frequency cell is not the plain sum",
+                    got=F.array[zero_idx], want=plain_sum)
+    wvd, wmp = _rename_fwd(f)
+    ctx.require(F.vdims == wvd and F.vdim_mapping == wmp and F.nvdim == nv, "C11.rename", where + ": fftn vdims / vdim_mapping / nvdim",
+                got=[F.vdims, F.vdim_mapping, F.nvdim], want=[wvd, wmp, nv])
+    # component through the library's accessor: transform of f.<vdim> == component of the transform, and f is left alone
+    if f.vdims is not None and nv > 1 and shape_ok:
+        watch.field("vector field the component was taken from", f)
+        i = int(pr["seed"]) % nv
+        r, Fi = _apply(ctx, getattr(f, f.vdims[i]), "fftn", watch, where + " component")
+        ctx.require(not r and Fi.nvdim == 1 and _cclose(Fi.array[..., 0], F.array[..., i], budget[i] / 4), "C11.per_component",
+                    where + ": fftn of field.<vdim> differs from that component of the transform")
+    # ---------------- back, and forward again, re-using every intermediate field
+    watch.field("real-space field", f)
+    r, G = _apply(ctx, F, "ifftn", watch, where)
+    ctx.require(not r, "C11.inverse_values", where + ": ifftn raised", sig="ifftn-raises", error=repr(G) if r else None)
+    if not r:
+        okm = _check_inverse_mesh(ctx, G.mesh, mesh, where + " ifftn(fftn)")
+        ctx.require(okm and _cclose(G.array, data, 64 * eps * vmax), "C11.inverse_values", where + ": ifftn(fftn(f)) != f",
+                    worst_over_budget=_maxrel(G.array, data, 64 * eps * vmax) if okm else None)
+        ctx.require(G.vdims == f.vdims and G.vdim_mapping == f.vdim_mapping, "C11.rename", where + ": ifftn vdims / vdim_mapping not restored",
+                    got=[G.vdims, G.vdim_mapping], want=[f.vdims, f.vdim_mapping])
+        watch.field("spectrum", F)
+        gdata = np.array(G.array, dtype=np.complex128)
+        r3, F3 = _apply(ctx, G, "fftn", watch, where + " fftn(ifftn(fftn(f)))")
+        ok3 = not r3 and F3.array.shape == (*n, nv)
+        ctx.require(ok3 and _cclose(F3.array, direct_dft(gdata, _centres(F3.mesh), np.asarray(G.mesh.cell, dtype=float)),
+                                    64 * eps * np.sum(np.abs(gdata.reshape(-1, nv)), axis=0)), "C11.dft_values",
+                    where + ": fftn of the field produced by ifftn is not the Fourier sum of that field")
+        ctx.require(ok3 and want is not None and _cclose(F3.array, want, 2 * budget), "C11.inverse_values", where + ": fftn(ifftn(fftn(f))) != fftn(f)",
+                    worst_over_budget=_maxrel(F3.array, want, 2 * budget) if ok3 and want is not None else None)
+    # ---------------- forward, real transform
+    R = None
+    if cplx:
+        r, R = _real_of_complex(ctx, f, F, data, budget, watch, where)
+        if r:
+            R = None
+    else:
+        r, R = _apply(ctx, f, "rfftn", watch, where)
+        ctx.require(not r, "C11.rdft_values", where + ": rfftn raised", sig="rfftn-raises", error=repr(R) if r else None)
+        if r:
+            R = None
+    nk = n[:-1] + [n[-1] // 2 + 1]
+    if R is not None and not cplx:
+        rk = R.mesh
+        _check_kmesh(ctx, rk, n, cell, True, "C11.rkmesh_freqs", where)
+        _check_names(ctx, rk, mesh, where)
+        rshape_ok = R.array.shape == (*nk, nv) and list(rk.n) == nk
+        ctx.require(rshape_ok, "C11.rdft_values", where + ": rfftn array shape", got=R.array.shape, want=nk)
+        if rshape_ok:
+            wr = direct_dft(data, _centres(rk), cell)
+            ctx.require(_cclose(R.array, wr, budget), "C11.rdft_values", where + ": rfftn differs from the direct Fourier sum",
+                        worst_over_budget=_maxrel(R.array, wr, budget))
+            ctx.require(_cclose(R.array[tuple(zero_idx[:-1]) + (0,)], plain_sum, budget), "C11.zero_freq", where + ": rfftn zero-frequency cell")
+            if shape_ok:
+                ctx.require(_cclose(R.array, F.array[..., _half_index(n[-1]), :], budget), "C11.rfft_half", where + ": rfftn is not the half of fftn")
+        ctx.require(R.vdims == wvd and R.vdim_mapping == wmp, "C11.rename", where + ": rfftn vdims / vdim_mapping", got=[R.vdims, R.vdim_mapping])
+        r, H = _apply(ctx, R, "irfftn", watch, where, shape=tuple(n))
+        ctx.require(not r, "C11.inverse_values", where + ": irfftn(shape=n) raised", sig="irfftn-shape-raises", error=repr(H) if r else None)
+        if not r:
+            okm = _check_inverse_mesh(ctx, H.mesh, mesh, where + " irfftn(rfftn, shape=n)")
+            ctx.require(okm and not np.iscomplexobj(H.array) and _cclose(H.array, data, 64 * eps * vmax), "C11.inverse_values",
+                        where + ": irfftn(rfftn(f), shape=n) != f", worst_over_budget=_maxrel(H.array, data, 64 * eps * vmax) if okm else None)
+        watch.field("half spectrum", R)
+        r, H0 = _apply(ctx, R, "irfftn", watch, where)
+        if n[-1] % 2 == 0:
+            ctx.require(not r and list(H0.mesh.n) == n and _cclose(H0.array, data, 64 * eps * vmax), "C11.irfftn_shape",
+                        where + ": even last axis not restored without shape")
+        if not r and isinstance(H0, df.Field) and not np.iscomplexobj(H0.array):
+            # a real field produced by the real inverse goes forward again (history), the half spectrum stays usable
+            hdata = np.array(H0.array, dtype=float)
+            r5, R5 = _apply(ctx, H0, "rfftn", watch, where + " rfftn(irfftn(..))")
+            ctx.require(not r5 and _cclose(R5.array, direct_dft(hdata, _centres(R5.mesh), np.asarray(H0.mesh.cell, dtype=float)),
+                                           64 * eps * np.sum(np.abs(hdata.reshape(-1, nv)), axis=0)), "C11.rdft_values",
+                        where + ": rfftn of the field produced by irfftn is not the Fourier sum of that field")
+
+    # ---------------- inverse transforms of FRESH k-space fields of the same dtype / layout
+    km0 = mesh0.fftn()
+    kd = _typed(rng, (*n, nv), dtype)
+    K = _build_field(km0, pr, watch.array("caller's k-space array", _layout(kd, pr["layout"])), nv=nv, **_dtype_kw(dtype))
+    kdata = np.array(K.array, dtype=np.complex128 if np.iscomplexobj(K.array) else np.float64)
+    assert np.array_equal(kdata, kd)
+    r, g = _apply(ctx, K, "ifftn", watch, where + " k-space")
+    ctx.require(not r, "C11.inverse_dft", where + ": ifftn of arbitrary k-space data raised", error=repr(g) if r else None)
+    if not r:
+        okm = _check_inverse_mesh(ctx, g.mesh, mesh0, where + " ifftn(k-space data)")
+        kb = 64 * eps * np.sum(np.abs(kdata.reshape(-1, nv)), axis=0)
+        ok = okm and g.array.shape == (*n, nv)
+        back = direct_dft(np.array(g.array, dtype=np.complex128), _centres(km0), np.asarray(mesh0.cell, dtype=float)) if ok else None
+        ctx.require(ok and _cclose(back, kdata, kb), "C11.inverse_dft", where + ": the Fourier sum of ifftn(G) does not give G back",
+                    worst_over_budget=_maxrel(back, kdata, kb) if ok else None)
+        watch.field("k-space field", K)
+        r6, K6 = _apply(ctx, g, "fftn", watch, where + " fftn(ifftn(G))")
+        kmax = 64 * eps * float(np.max(np.abs(kdata)))
+        ctx.require(not r6 and _cclose(K6.array, kdata, kmax), "C11.inverse_dft", where + ": fftn(ifftn(G)) != G",
+                    worst_over_budget=None if r6 else _maxrel(K6.array, kdata, kmax))
+        _again(ctx, K, "ifftn", g, where + " k-space")
+    rk0 = mesh0.fftn(rfft=True)
+    KR = _build_field(rk0, pr, watch.array("caller's half-spectrum array", _layout(_typed(rng, (*nk, nv), dtype), pr["layout"])), nv=nv, **_dtype_kw(dtype))
+    r, h = _apply(ctx, KR, "irfftn", watch, where + " k-space", shape=tuple(n))
+    if ctx.require(not r, "C11.inverse_mesh", where + ": irfftn(shape=n) of arbitrary half-spectrum data raised", error=repr(h) if r else None):
+        _check_inverse_mesh(ctx, h.mesh, mesh0, where + " irfftn(k-space data, shape=n)")
+    _apply(ctx, KR, "irfftn", watch, where + " k-space")
+    # Mesh level
+    _apply(ctx, mesh0, "fftn", watch, where)
+    _apply(ctx, mesh0, "fftn", watch, where, rfft=True)
+    _apply(ctx, km0, "ifftn", watch, where)
+    _apply(ctx, rk0, "ifftn", watch, where, rfft=True, shape=tuple(n))
+    # once more at the end
+    _again(ctx, f, "fftn", F, where)
+    if R is not None:
+        _again(ctx, f, "rfftn", R, where)
